@@ -247,9 +247,10 @@ def arriveSegs (v : Variant) : DecState → List Seg → List Arrival → Option
         (reseg (addArrival segs x) (decodeV v st (addArrival segs x) false).store) xs
     else some (decodeV v st (addArrival segs x) false)
 
-/-- `source == NULL`: reset (`sourcelen == 0`) or size query -/
+/-- `source == NULL`: reset (`sourcelen == 0`: the open block and the message in progress are dropped, a
+    delivered message that is still waiting stays) or size query -/
 def decodeQuery (v : Variant) (st : DecState) (n : Nat) : DecRet × DecState :=
-  if n = 0 then (.val 0, { st with ctx := 0 })
+  if n = 0 then (.val 0, { st with ctx := 0, len := if st.msg.isSome then st.len else 0 })
   else (.val ((if v.isZpe then n * 2 else n - n / v.maxlen) + st.len), st)
 
 /-! ### `mpt_decode_command` -/
